@@ -53,9 +53,9 @@ type LocalsBlock struct {
 var Functions = []string{"coalesce", "coalescelist", "compact", "concat", "distinct", "element", "flatten",
 	"index", "keys", "lookup", "merge", "reverse", "slice", "sort", "split", "values", "zipmap"}
 
-func lit(s string) Expr       { return Expr{K: "s", S: s} }
-func num(n int) Expr          { return Expr{K: "n", N: n} }
-func ref(name string) Expr    { return Expr{K: "ref", S: name} }
+func lit(s string) Expr             { return Expr{K: "s", S: s} }
+func num(n int) Expr                { return Expr{K: "n", N: n} }
+func ref(name string) Expr          { return Expr{K: "ref", S: name} }
 func call(f string, a ...Expr) Expr { return Expr{K: "f", S: f, A: a} }
 func listLit(l []string) Expr {
 	e := Expr{K: "l", L: []Expr{}}
